@@ -255,7 +255,8 @@ def mean(group_idx, array, *, axis=-1, size=None, fill_value=None, dtype=None):
         fill_value = 0
     out = sum(group_idx, array, axis=axis, size=size, dtype=dtype, fill_value=fill_value)
     with np.errstate(invalid="ignore", divide="ignore"):
-        out /= nanlen(group_idx, array, size=size, axis=axis, fill_value=0)
+        # (not in place: `out` has an integer dtype when an integer dtype= was requested)
+        out = out / nanlen(group_idx, array, size=size, axis=axis, fill_value=0)
     return out
 
 
@@ -264,7 +265,7 @@ def nanmean(group_idx, array, *, axis=-1, size=None, fill_value=None, dtype=None
         fill_value = 0
     out = nansum(group_idx, array, size=size, axis=axis, dtype=dtype, fill_value=fill_value)
     with np.errstate(invalid="ignore", divide="ignore"):
-        out /= nanlen(group_idx, array, size=size, axis=axis, fill_value=0)
+        out = out / nanlen(group_idx, array, size=size, axis=axis, fill_value=0)
     return out
 
 
